@@ -739,10 +739,20 @@ class MyPyAstVisitor:
         unanalyzed_type: mp_types.Type | None,
         is_static: bool = True,
     ) -> list[Attribute]:
-        assert isinstance(lvalue, mp_nodes.NameExpr | mp_nodes.MemberExpr | mp_nodes.TupleExpr)
         attributes: list[Attribute] = []
 
-        if hasattr(lvalue, "name"):
+        # "first, *rest = ..." binds the name behind the star
+        if isinstance(lvalue, mp_nodes.StarExpr):
+            lvalue = lvalue.expr
+
+        if isinstance(lvalue, mp_nodes.TupleExpr | mp_nodes.ListExpr):
+            for lvalue_ in lvalue.items:
+                # Local variables that are unpacked in a constructor ("self.a, rest = ...") are no instance attributes
+                if not is_static and isinstance(lvalue_, mp_nodes.NameExpr):
+                    continue
+                attributes.extend(self._parse_attributes(lvalue_, unanalyzed_type, is_static))
+
+        elif isinstance(lvalue, mp_nodes.NameExpr | mp_nodes.MemberExpr):
             if self._is_attribute_already_defined(lvalue.name):
                 return attributes
 
@@ -750,19 +760,7 @@ class MyPyAstVisitor:
                 self._create_attribute(lvalue, unanalyzed_type, is_static),
             )
 
-        elif hasattr(lvalue, "items"):
-            lvalues = list(lvalue.items)
-            for lvalue_ in lvalues:
-                if not hasattr(lvalue_, "name"):  # pragma: no cover
-                    raise AttributeError("Expected value to have attribute 'name'.")
-
-                if self._is_attribute_already_defined(lvalue_.name):
-                    continue
-
-                attributes.append(
-                    self._create_attribute(lvalue_, unanalyzed_type, is_static),
-                )
-
+        # Every other target ("registry[key] = ...") assigns into an existing object and defines no attribute
         return attributes
 
     def _is_attribute_already_defined(self, value_name: str) -> bool:
